@@ -28,6 +28,12 @@ BUILT = {
  'C15': dict(cat='exploration', tech='postcondition monitors interposed on optima_tt_beam / optima_tt_max / optima_tt (all external and internal calls) against the longdouble dense tensor of the call argument; end-to-end monitors for optima_qtt, optima_tt_maxvol, optima_func_tt_beam; known findings keyed by mechanism',
    text='Indices in bounds, reported values equal the entries, min <= max; exactness judged value-wise under a full beam and for rank-1 tensors; quantised variant mapped back by an own index map; functional variant against chebroots of the derivative plus a grid. Three mechanisms (K1, K2, K4) are genuine, unrepaired findings and are reported as KNOWN-FINDING.',
    note='Tolerances 10(sum ranks+d) eps absbound for entries; known findings are matched by mechanism (rank-1 and pruning beam and correct max-modulus and opposite extreme missed; rank-deficient matrix handed to maxvol), never by seed.', ref='§4 C15'),
+ 'C16': dict(cat='exploration', tech='reference evaluated in (longdouble mantissa, integer exponent) arithmetic with a running-error bound; returned (mantissa, exponent) pairs of the stabilised routines compared after aligning exponents; power-of-two metamorphic test; known findings keyed by input mechanism',
+   text='Stabilised mul_scalar / norm / orthogonalize / accuracy / truncate executed on tensors with d up to 3000 (thorough 6000) and log2 norm in +-30000 and judged against the unbounded-exponent reference: value, moderate mantissa, integer / half-integer exponent, saturation values, agreement with the plain routines where representable, exact exponent shift under power-of-two rescaling. Three mechanisms are genuine unrepaired findings (KNOWN-FINDING).',
+   note='Tolerance 10*2^-52*first-order running-error bound; ill-conditioned scalar products (bound > 1e-3 |value|) not judged.', ref='§4 C16'),
+ 'C20': dict(cat='exploration', tech='end-to-end oracle on executions: exact-rank dense target -> sample_tt -> svd_incomplete, compared with the dense target; conditioning of the sampled blocks computed from target and sample set only',
+   text='Well-formedness, ranks <= cap and max|Z - T| <= 1e-7 max|T| for every generated target of TT-rank rho sampled for expected rank m >= rho with all mode sizes >= m.',
+   note='Sampled blocks with sigma_rho/sigma_1 < 1e-5 are not judged ("almost all").', ref='§4 C20'),
  'C01': dict(cat='exploration', tech='shadow-value runtime monitor: random expression programs evaluated by the real functions, every node and observer compared with a longdouble / exact-integer dense shadow',
    text='Oracle on executions of the real add/sub/mul/outer/copy and all evaluation routines over generated programs and TT families; held on the K programs listed in the evidence, never "verified".',
    note='Trusted: NumPy longdouble arithmetic as dense reference; tolerance 10(sum ranks+d)2^-52*absbound; exact Python ints for integer cores.', ref='§4 C01'),
